@@ -16,6 +16,7 @@ import (
 	"io"
 	"math/big"
 	"strings"
+	"sync"
 	"time"
 
 	zdsa "github.com/zmap/zcrypto/dsa"
@@ -91,7 +92,8 @@ func buildSigners(c *ev.Ctx) []*signer {
 	}
 	edCA := out[len(out)-1].parent
 	out = append(out, &signer{name: "dsa1024", kind: "DSA(wrapped as crypto.Signer)", priv: dsaSigner{fx.DSA("dsa1024")}, parent: edCA, rand: detRand})
-	out = append(out, &signer{name: "rsa1024", kind: "crypto/rsa key (not zcrypto/rsa)", priv: fx.StdRSA("rsa1024"), parent: out[0].parent, rand: detRand})
+	// a crypto/rsa (not zcrypto/rsa) private key: refused today; were it accepted, it is the rsa1024 key and is judged as such.
+	out = append(out, &signer{name: "rsa1024", kind: "crypto/rsa key (not zcrypto/rsa)", priv: fx.StdRSA("rsa1024"), key: loadKey("rsa1024"), parent: out[0].parent, rand: detRand})
 	return out
 }
 
@@ -106,7 +108,8 @@ type signedWire struct {
 
 type signedOuter struct {
 	signedWire
-	Alg stdpkix.AlgorithmIdentifier
+	Alg   stdpkix.AlgorithmIdentifier
+	Certs [][]byte // OCSP only: the certificates embedded after the signature
 }
 
 func (s *signedOuter) decodeAlg() error {
@@ -153,6 +156,9 @@ func extractSigned(der []byte, isOCSP bool) (*signedOuter, error) {
 			return nil, errors.New("trailing data")
 		}
 		s := &signedOuter{signedWire: signedWire{TBS: b.TBS, AlgRaw: b.Alg, Sig: b.Sig}}
+		for _, c := range b.Certs {
+			s.Certs = append(s.Certs, c.FullBytes)
+		}
 		return s, s.decodeAlg()
 	}
 	var s signedOuter
@@ -258,6 +264,17 @@ func oracleObj(der []byte, a *api, k *pkey) (valid bool, alg algInfo, so *signed
 	if so.Sig.BitLength%8 != 0 {
 		return false, alg, so, "signature BIT STRING is not a whole number of octets"
 	}
+	if a.delegated {
+		// RFC 6960 §4.2.2.2: the response is signed by the responder certificate embedded in it, which
+		// must itself be signed by the issuer. k is the responder's key; the embedded certificate is
+		// judged like any certificate, under the issuer's key.
+		if len(so.Certs) == 0 {
+			return false, alg, so, "no embedded responder certificate"
+		}
+		if cv, _, _, cwhy := oracleObj(so.Certs[0], &api{innerAlg: true}, ocspIssuerKey()); !cv {
+			return false, alg, so, "embedded responder certificate: " + cwhy
+		}
+	}
 	if strict(k, alg, so.TBS.FullBytes, so.Sig.Bytes) {
 		return true, alg, so, ""
 	}
@@ -295,10 +312,44 @@ func whatIsIt(k *pkey, so *signedOuter) string {
 
 // ---------------------------------------------------------------------------
 
+const ocspIssuerName = "ed-c03-ocsp-issuer"
+
+var (
+	ocspIssuerOnce sync.Once
+	ocspIssuerCA   *fx.Cert
+	ocspIssuerPK   *pkey
+	responderMu    sync.Mutex
+	responders     = map[string]*fx.Cert{}
+)
+
+func ocspIssuer() *fx.Cert {
+	ocspIssuerOnce.Do(func() {
+		ocspIssuerCA = caFor(ocspIssuerName)
+		ocspIssuerPK = loadKey(ocspIssuerName)
+	})
+	return ocspIssuerCA
+}
+
+func ocspIssuerKey() *pkey { ocspIssuer(); return ocspIssuerPK }
+
+// responderFor: a delegated OCSP responder certificate for the signer's key, issued by ocspIssuer.
+func responderFor(name string) *fx.Cert {
+	responderMu.Lock()
+	defer responderMu.Unlock()
+	if r, ok := responders[name]; ok {
+		return r
+	}
+	r := fx.MustMint(fx.CertSpec{CN: "C03 OCSP responder " + name, Key: name, Serial: 0x0c5,
+		EKU: []x509.ExtKeyUsage{x509.ExtKeyUsageOcspSigning}, KeyUsage: x509.KeyUsageDigitalSignature}, ocspIssuer())
+	responders[name] = r
+	return r
+}
+
 type api struct {
-	name     string
-	verifier string
-	isOCSP   bool
+	name      string
+	verifier  string
+	isOCSP    bool
+	delegated bool // OCSP response signed by an embedded responder certificate; the verifier is given the ISSUER
 	innerAlg bool // the verifier may read the algorithm from inside the signed bytes (tbsCertificate.signature)
 	takesAlg bool
 	create   func(s *signer, a x509.SignatureAlgorithm) ([]byte, error)
@@ -376,12 +427,40 @@ func apis() []api {
 				}
 				return "parse", err
 			}},
+		{name: "ocsp.CreateResponse(delegated responder)", verifier: "ocsp.ParseResponse(issuer) with embedded responder certificate", isOCSP: true, delegated: true, takesAlg: true,
+			create: func(s *signer, a x509.SignatureAlgorithm) ([]byte, error) {
+				if s.key == nil {
+					return nil, errors.New("harness: no responder certificate for this signer kind")
+				}
+				r := responderFor(s.name)
+				t := ocsp.Response{Status: ocsp.Good, SerialNumber: big.NewInt(0xc03), ThisUpdate: tThis, NextUpdate: tNext, SignatureAlgorithm: a, Certificate: r.X}
+				return ocsp.CreateResponse(ocspIssuer().X, r.X, t, s.priv)
+			},
+			verify: func(der []byte, issuer *x509.Certificate) (string, error) {
+				r, err := ocsp.ParseResponse(der, issuer)
+				if err != nil && (strings.Contains(err.Error(), "bad OCSP signature") || strings.Contains(err.Error(), "bad signature on embedded certificate")) {
+					return "verify", err
+				}
+				if err == nil && r.Certificate == nil {
+					return "verify", errors.New("harness: the response was accepted without its embedded responder certificate")
+				}
+				return "parse", err
+			}},
 	}
+}
+
+// parentOf: the certificate handed to the object's verification API.
+func (a *api) parentOf(s *signer) *fx.Cert {
+	if a.delegated {
+		return ocspIssuer()
+	}
+	return s.parent
 }
 
 type object struct {
 	api   *api
 	s     *signer
+	par   *fx.Cert // what the verification API is given (issuer)
 	alg   algInfo // requested
 	enc   algInfo // encoded in the created object (independent decoder)
 	der   []byte
@@ -418,7 +497,7 @@ func errClass(err error) string {
 
 func (o *object) witness(der []byte, off int, oldB, newB byte, z, orc, detail string) objWitness {
 	w := objWitness{Part: "obj", API: o.api.name, Signer: o.s.name + " [" + o.s.kind + "]", Alg: int(o.alg.alg), AlgName: o.alg.name,
-		DERHex: hex.EncodeToString(der), Offset: off, ParentHex: hex.EncodeToString(o.s.parent.DER), Zcrypto: z, Oracle: orc, Detail: detail}
+		DERHex: hex.EncodeToString(der), Offset: off, ParentHex: hex.EncodeToString(o.par.DER), Zcrypto: z, Oracle: orc, Detail: detail}
 	if off >= 0 {
 		w.Old, w.New, w.Region = fmt.Sprintf("%02x", oldB), fmt.Sprintf("%02x", newB), o.region(off)
 	}
@@ -465,11 +544,12 @@ type objStats struct {
 
 // judgeObj evaluates one (possibly mutated) encoding of an object.
 func judgeObj(c *ev.Ctx, st *objStats, o *object, der []byte, off int, oldB, newB byte) {
-	stage, err, pan := zobj(o.api, der, o.s.parent.X)
+	stage, err, pan := zobj(o.api, der, o.par.X)
 	st.trans++
 	if pan != "" {
-		st.h["obj-mutant: panic (observation, C01 owns it)"]++
-		c.Set("observation_panic_in_object_verification", map[string]any{"where": pan, "witness": o.witness(der, off, oldB, newB, "panic", "", "")})
+		// the statement knows "verifies" and "fails"; a panic of the parse+verify API is neither.
+		st.h["VIOLATION: obj-mutant: panic"]++
+		violObj(c, fmt.Sprintf("obj %s: %s on a 1-byte substitution", o.api.name, pan), o.witness(append([]byte{}, der...), off, oldB, newB, "panic", "", ""))
 		return
 	}
 	if err != nil {
@@ -493,6 +573,11 @@ func judgeObj(c *ev.Ctx, st *objStats, o *object, der []byte, off int, oldB, new
 			violObj(c, fmt.Sprintf("obj %s: substitution inside the %s still verifies for zcrypto AND for the standard library (check the harness)", o.api.name, reg),
 				o.witness(der, off, oldB, newB, "accept", "accept", ""))
 		case "signatureAlgorithm":
+			if alg.alg != o.enc.alg {
+				violObj(c, fmt.Sprintf("obj %s: after a substitution in the signatureAlgorithm the signature verifies under ANOTHER algorithm than the one it was made with", o.api.name),
+					o.witness(append([]byte{}, der...), off, oldB, newB, "accept", "accept under "+alg.name, "object signed with "+o.enc.name))
+				return
+			}
 			if why == "inner" {
 				st.outerIgnored++
 				st.h["obj-mutant accepted: outer Certificate.signatureAlgorithm changed, the signed tbsCertificate.signature ("+alg.scheme()+") is what zcrypto verifies under and stdlib agrees under that reading (RFC 5280 §4.1.1.2 says they MUST match; statement silent)"]++
@@ -537,8 +622,9 @@ func runObj(c *ev.Ctx) {
 				p, m, site := ev.Try(func() { der, err = a.create(s, al.alg) })
 				c.Transitions.Add(1)
 				if p {
-					c.Outcome("create: panic (observation)", 1)
-					c.Set("observation_panic_in_creation", map[string]any{"api": a.name, "signer": s.name + " [" + s.kind + "]", "alg": al.name, "where": "panic@" + site + ": " + ev.MsgClass(m)})
+					c.Outcome("VIOLATION: create: panic", 1)
+					violObj(c, fmt.Sprintf("obj %s: panic@%s: %s while creating", a.name, site, ev.MsgClass(m)),
+						objWitness{Part: "obj", API: a.name, Signer: s.name + " [" + s.kind + "]", Alg: int(al.alg), AlgName: al.name, Offset: -1, Zcrypto: "panic", Detail: m})
 					continue
 				}
 				if err != nil {
@@ -549,14 +635,17 @@ func runObj(c *ev.Ctx) {
 				created++
 				c.Outcome("create accepted: "+a.name, 1)
 				accepted[a.name] = append(accepted[a.name], s.name+"["+s.kind+"]/"+al.name)
-				o := &object{api: a, s: s, alg: al, der: der}
+				o := &object{api: a, s: s, alg: al, der: der, par: a.parentOf(s)}
 				if s.key == nil {
-					// an API took a key type this check has no independent verifier wired for: cannot judge.
-					c.Set("uncovered_signer_accepted", a.name+" accepted "+s.kind)
+					// The API took a key type it documents as unsupported ("only RSA, ECDSA, Ed25519 ... keys
+					// supported") and for which no issuer certificate can exist in this harness: the object
+					// cannot be judged. 0 occurrences on the unchanged tree; must be looked at when it changes.
+					violObj(c, fmt.Sprintf("obj %s: accepted a signer of kind %s, which the API documents as unsupported; no verification API can be exercised for it", a.name, s.kind),
+						objWitness{Part: "obj", API: a.name, Signer: s.name + " [" + s.kind + "]", Alg: int(al.alg), AlgName: al.name, DERHex: hex.EncodeToString(der), Offset: -1})
 					continue
 				}
 				// the object's own verification API must accept what the API produced.
-				stage, verr, pan := zobj(a, der, s.parent.X)
+				stage, verr, pan := zobj(a, der, o.par.X)
 				c.Transitions.Add(1)
 				valid, encAlg, so, why := oracleObj(der, a, s.key)
 				if valid && why == "inner" {
@@ -595,6 +684,12 @@ func runObj(c *ev.Ctx) {
 				o.algHi = o.tbsHi + len(so.AlgRaw.FullBytes)
 				sb, _ := stdasn1.Marshal(so.Sig)
 				o.sigHi = o.algHi + len(sb)
+				if c.Quick() && a.delegated && al.alg != 0 {
+					// quick tier: delegated OCSP responses are swept for the default algorithm of every signer
+					// (creation and self-verification above cover every algorithm).
+					c.Outcome("create→verify ok, substitution sweep left to the thorough tier (delegated OCSP, non-default algorithm)", 1)
+					continue
+				}
 				if c.Quick() && s.key.fam == famECDSA && s.key.bits != 256 && al.alg != 0 {
 					// quick tier: P-224/P-384/P-521 objects are swept for the default algorithm only
 					// (creation and self-verification above cover every algorithm); P-256 is swept for all.
